@@ -26,6 +26,13 @@ def main(argv):
         emit({"t": "init_error", "error": traceback.format_exc()[-3000:]})
         return 3
     case_timeout = getattr(mod, "CASE_TIMEOUT", 120)
+    mem_gb = getattr(mod, "MEM_LIMIT_GB", None)
+    if mem_gb:
+        # a program under test that asks for an absurd amount of memory gets MemoryError (an ordinary error outcome)
+        # instead of taking the machine down (the kernel's OOM killer picks arbitrary victims)
+        import resource
+        cap = int(mem_gb * 2 ** 30)
+        resource.setrlimit(resource.RLIMIT_AS, (cap, cap))
     for pos in range(start, len(mine)):
         i = mine[pos]
         emit({"t": "begin", "pos": pos, "i": i})
